@@ -239,7 +239,20 @@ func runC15(r *rep.Report, thorough bool) error {
 				}
 			}
 			if reply["admitsMany"].(bool) && len(vals) >= 6 && len(distinct) < 2 {
-				r.Fail(rep.Failure{Signature: "c15:no-variation", What: fmt.Sprintf("%d calls returned the same value although the type admits several", len(vals)), Input: in})
+				// k identical draws from a two-valued type happen once in 2^(k-1) types: before
+				// calling it a failure, draw 200 more (a uniform two-valued generator then
+				// shows one value with probability 2^-199)
+				more, _ := gorun.RunRand(bin, sp.Case, tname, 200)
+				for _, ln := range more {
+					if ln.Val != nil {
+						b, _ := json.Marshal(ln.Val)
+						distinct[string(b)] = true
+					}
+				}
+				r.Hist("variation-retried-with-200-calls")
+			}
+			if reply["admitsMany"].(bool) && len(vals) >= 6 && len(distinct) < 2 {
+				r.Fail(rep.Failure{Signature: "c15:no-variation", What: fmt.Sprintf("%d calls returned the same value although the type admits several", len(vals)+200), Input: in})
 			}
 		}
 	}
